@@ -664,7 +664,7 @@ void vf_gen(Rng &r, std::vector<uint8_t> &out)
         out.push_back(r.chance(1, 2) ? (uint8_t)r.below(8) : r.byte());
         out.push_back(0);
         out.push_back(0);
-        out.push_back(r.chance(1, 100) ? 0x80 : 0);   // long-running variants (2^30 swap calls, far linear finds) are rare
+        out.push_back(r.chance(1, 1500) ? 0x80 : 0);  // long-running variants (2^30 swap calls, far linear finds) are rare: ~10 s each
         out.push_back(r.byte());                         // search / find / reverse
         out.push_back(r.byte());                         // length
         out.push_back(r.byte());                         // target class
